@@ -47,10 +47,24 @@ def run(chk, orch):
         rounds += 1
         wls = common.base_workloads(chk.tier, chk.rng, n_random=(2 if quick else 24)) if rounds == 1 else \
             [(lambda s: (s, common.random_opts(chk.rng, s)))(common.workload.random_spec(chk.rng)) for _ in range(24)]
+        if rounds == 1:
+            # a workload without multi-mappers, run in folders that hold the intermediate files (--keep_tmp) of another data set
+            # WITH multi-mappers and duplicates: nothing of the earlier run may leak into this one
+            hist_spec = {"seed": 14, "n_chr": 3, "genes_per_chr": 3, "paralogs": 0, "intergenic_multi": 0, "novel": 1, "groups": 0}
+            # (same options, so that both runs produce the same set of output files)
+            hist_pre = {"spec": {"seed": 15, "n_chr": 3, "genes_per_chr": 3, "paralogs": 2, "intergenic_multi": 2, "dup_records": 2,
+                                 "novel": 2, "groups": 0, "ambig_multi": 3},
+                        "opts": {"keep_tmp": True, "threads": 1}}
+            wls.append((hist_spec, {}))
         jobs = {}
         for wi, (spec, opts) in enumerate(wls):
             gid = orch.submit(0, "scenarios:pipeline", common.job_args(spec, opts, common.GOLDEN_CELL), tag=("g", wi))
-            if rounds == 1 and wi < 3:
+            if rounds == 1 and spec.get("seed") == 14 and wi == len(wls) - 1:
+                g0 = common.GOLDEN_CELL
+                cells = [dict(g0, pre=hist_pre, note="folder_history"),
+                         dict(g0, pre=hist_pre, threads=2, sched={"policy": "spread", "seed": 4}, note="folder_history"),
+                         dict(g0, pre=hist_pre, high_memory=True, note="folder_history")]
+            elif rounds == 1 and wi < 3:
                 cells = common.structured_cells() if not quick or wi < 2 else common.structured_cells()[:8]
             else:
                 cells = [common.random_cell(chk.rng) for _ in range(4 if quick else 8)]
